@@ -3,7 +3,7 @@
    [range n] = 0..n-1; [lex counts] = all index combinations in lexicographic order of the (sorted) names;
    [bind_idx idx ec] binds $repeat:<name> for every (name, index) of idx. *)
 From Coq Require Import String Ascii List ZArith.
-From Bkl Require Import Model.Value Model.Merge Model.Eval Proofs.RepeatProofs.
+From Bkl Require Import Model.Value Model.Merge Model.Eval Proofs.RepeatProofs Proofs.NestedRepeatProofs.
 Import ListNotations.
 Local Open Scope string_scope.
 Local Open Scope list_scope.
@@ -35,6 +35,44 @@ Print Assumptions C12_not_int.
 Theorem C12_named_not_int : forall d ec rs, int_counts rs = None -> repeat_gen d ec (VMap rs) = Err EInvalidRepeat.
 Proof. exact repeat_gen_named_not_int. Qed.
 Print Assumptions C12_named_not_int.
+
+(* ---- $repeat inside a list (process2.go): each entry stands for what it contributes, in place ---- *)
+(* a list without $encode evaluates to the concatenation, in order, of its entries' contributions; errors included *)
+Theorem C12_list_entries : forall o S di f ec l l1,
+  pop_list_map_value l "$encode" = Ok (VNull, l1) ->
+  p2 o S di (Datatypes.S f) ec (VList l) = do parts <- map_res (entry_parts o S di f ec) l1; Ok (VList (concat parts)).
+Proof. exact p2_list_spec. Qed.
+Print Assumptions C12_list_entries.
+
+(* an entry {$repeat: n, ...body} contributes the n evaluations of body with $repeat = 0..n-1, in index order,
+   null results dropped; none for n <= 0 *)
+Theorem C12_list_entry_repeat : forall o S di f ec vm n,
+  lookup "$repeat" vm = Some (VInt n) ->
+  entry_parts o S di f ec (VMap vm) =
+    do ys <- map_res (fun i => p2 o S di f (insert "$repeat" (VInt i) ec) (VMap (remove "$repeat" vm))) (map Z.of_nat (seq 0 (Z.to_nat n)));
+    Ok (flat_map keep ys).
+Proof. exact entry_repeat. Qed.
+Print Assumptions C12_list_entry_repeat.
+
+(* every other entry contributes its own evaluation *)
+Theorem C12_list_entry_plain : forall o S di f ec v,
+  (forall vm, v = VMap vm -> lookup "$repeat" vm = None) ->
+  entry_parts o S di f ec v = do v2 <- p2 o S di f ec v; Ok (keep v2).
+Proof. exact entry_plain. Qed.
+Print Assumptions C12_list_entry_plain.
+
+Theorem C12_list_entry_bad_count : forall o S di f ec vm r,
+  lookup "$repeat" vm = Some r -> (forall n, r <> VInt n) -> entry_parts o S di f ec (VMap vm) = Err EInvalidType.
+Proof. exact entry_bad_count. Qed.
+Print Assumptions C12_list_entry_bad_count.
+
+(* the statements are about something: [1, {$repeat: 3, v: $repeat}, 2] with no oracle used *)
+Example C12_list_example :
+  let o := {| o_env := []; o_yaml := fun _ => Err EOracle; o_enc := fun _ _ => Err EOracle; o_dec := fun _ _ => Err EOracle;
+              o_fmt := fun _ => false; o_sha := fun _ => Err EOracle; o_lower := fun _ => false |} in
+  p2 o [] 0 10 [] (VList [VInt 1; VMap [("$repeat", VInt 3); ("v", VStr "$repeat")]; VInt 2])
+  = Ok (VList [VInt 1; VMap [("v", VInt 0)]; VMap [("v", VInt 1)]; VMap [("v", VInt 2)]; VInt 2]).
+Proof. vm_compute. reflexivity. Qed.
 
 Example C12_lex_example : lex [("x", 2%Z); ("y", 2%Z)] =
   [[("x", 0%Z); ("y", 0%Z)]; [("x", 0%Z); ("y", 1%Z)]; [("x", 1%Z); ("y", 0%Z)]; [("x", 1%Z); ("y", 1%Z)]].
